@@ -305,18 +305,22 @@ def bibtex_width(string):
     1500
     >>> bibtex_width(r"ab{\'c{d}}")
     2056
+    >>> bibtex_width(r"{a\b}")
+    2556
     """
 
     from pybtex.charwidths import charwidths
     width = 0
+    after_open = False  # the previous token opened a group at brace level 1
     for token, brace_level in scan_bibtex_string(string):
-        if brace_level == 1 and token.startswith('\\'):
+        if after_open and token.startswith('\\'):  # special character
             for char in token[2:]:
                 if char not in '{}':
                     width += charwidths.get(char, 0)
             width -= 1000  # two braces
         else:
             width += charwidths.get(token, 0)
+        after_open = token == '{' and brace_level == 1
     return width
 
 
